@@ -209,3 +209,124 @@ B b24_lock_release_inspect 'release: log with inspect_err then convert' src/gc_l
             })?;' \
 '            .inspect_err(|err| error!(?err, "Failed to delete GC lock"))
             .map_err(Error::from)?;'
+
+# ---- heavier refactors: a step extracted into a private helper
+B b25_flush_store_helper 'FileCombiner::flush stores the block through a helper' src/backup.rs \
+'        let hash = self
+            .block_dir
+            .store_or_deduplicate(take(&mut self.buf).freeze(), &mut self.stats, monitor)
+            .await?;
+        self.stats.combined_blocks += 1;' \
+'        let hash = self.store_combined_block(monitor).await?;
+        self.stats.combined_blocks += 1;' \
+src/backup.rs \
+'    /// Add the contents of a small file into this combiner.' \
+'    /// Store the combine buffer as one block, leaving the buffer empty.
+    async fn store_combined_block(&mut self, monitor: Arc<dyn Monitor>) -> Result<BlockHash> {
+        let block = take(&mut self.buf).freeze();
+        self.block_dir
+            .store_or_deduplicate(block, &mut self.stats, monitor)
+            .await
+    }
+
+    /// Add the contents of a small file into this combiner.'
+B b26_finish_close_helper 'BackupWriter::finish closes the band through a helper' src/backup.rs \
+'        let hunks = self.index_writer.finish().await?;
+        trace!(?hunks, "Closing band");
+        self.band.close(hunks as u64).await?;
+        Ok(BackupStats { ..self.stats })' \
+'        let hunks = self.index_writer.finish().await?;
+        trace!(?hunks, "Closing band");
+        write_tail(&self.band, hunks).await?;
+        Ok(BackupStats { ..self.stats })' \
+src/backup.rs \
+'async fn store_file_content(' \
+'/// Mark the band complete, recording how many index hunks it has.
+async fn write_tail(band: &Band, hunks: usize) -> Result<()> {
+    band.close(hunks as u64).await
+}
+
+async fn store_file_content('
+B b27_restore_metadata_helper 'restore_file applies owner and mode through a helper' src/restore.rs \
+'    // Restore ownership if possible. This must come before the permissions,
+    // because changing the owner clears any setuid and setgid bits.
+    // TODO: Stats and warnings if a user or group is specified in the index but
+    // does not exist on the local system.
+    if let Err(source) = source_entry.owner().set_owner(&path) {
+        monitor.error(Error::RestoreOwnership {
+            path: path.clone(),
+            source,
+        });
+    }
+
+    // Restore permissions only if there are mode bits stored in the archive
+    if let Err(source) = source_entry.unix_mode().set_permissions(&path) {
+        monitor.error(Error::RestorePermissions {
+            path: path.clone(),
+            source,
+        });
+    }' \
+'    apply_owner_and_mode(&path, source_entry, monitor.as_ref());' \
+src/restore.rs \
+'#[cfg(unix)]
+fn restore_symlink(' \
+'/// Apply ownership, then permissions (changing the owner clears setuid and setgid bits).
+fn apply_owner_and_mode(path: &Path, entry: &IndexEntry, monitor: &dyn Monitor) {
+    if let Err(source) = entry.owner().set_owner(path) {
+        monitor.error(Error::RestoreOwnership {
+            path: path.to_owned(),
+            source,
+        });
+    }
+    if let Err(source) = entry.unix_mode().set_permissions(path) {
+        monitor.error(Error::RestorePermissions {
+            path: path.to_owned(),
+            source,
+        });
+    }
+}
+
+#[cfg(unix)]
+fn restore_symlink('
+B b28_store_write_helper 'store_or_deduplicate writes the block file through a helper' src/blockdir.rs \
+'        self.transport.create_dir(subdir_relpath(&hex_hash)).await?;
+        match self
+            .transport
+            .write(&relpath, &compressed, WriteMode::CreateNew)
+            .await
+        {' \
+'        match self.write_block_file(&hex_hash, &relpath, &compressed).await {' \
+src/blockdir.rs \
+'    /// True if the named block is present and apparently in this blockdir.' \
+'    /// Create the prefix directory and write one compressed block file.
+    async fn write_block_file(
+        &self,
+        hex_hash: &str,
+        relpath: &str,
+        compressed: &[u8],
+    ) -> transport::Result<()> {
+        self.transport.create_dir(subdir_relpath(hex_hash)).await?;
+        self.transport
+            .write(relpath, compressed, WriteMode::CreateNew)
+            .await
+    }
+
+    /// True if the named block is present and apparently in this blockdir.'
+B b29_delete_loops_helper 'delete_bands removes the bands through a helper' src/archive.rs \
+'            for band_id in delete_band_ids.iter() {
+                Band::delete(self, *band_id).await?;
+                stats.deleted_band_count += 1;
+                task.increment(1);
+            }' \
+'            for band_id in delete_band_ids.iter() {
+                self.delete_one_band(*band_id).await?;
+                stats.deleted_band_count += 1;
+                task.increment(1);
+            }' \
+src/archive.rs \
+'    /// Walk the archive to check all invariants.' \
+'    async fn delete_one_band(&self, band_id: BandId) -> Result<()> {
+        Band::delete(self, band_id).await
+    }
+
+    /// Walk the archive to check all invariants.'
